@@ -122,7 +122,7 @@ def gen_cases(rng, tier):
     # spin-dependent (SSO) Hamiltonians - different one-body matrices and different same-spin interactions for alpha and beta -
     # on both code paths, on sectors that take the low-filling kernels of the reference path (n_sigma < 0.3 norb: 7 orbitals,
     # up to two electrons per spin) and on a half-filled one; judged by the exact sector matrix from the model
-    sso_shapes = [(7, 1, 2), (7, 2, 1), (4, 2, 2)] if tier == 'quick' else [(7, 1, 2), (7, 2, 1), (7, 2, 2), (7, 0, 2), (4, 2, 2), (5, 2, 3), (8, 2, 1)]
+    sso_shapes = [(7, 1, 2), (7, 2, 1), (4, 2, 2)] if tier == 'quick' else [(7, 1, 2), (7, 2, 1), (7, 0, 2), (4, 2, 2), (5, 2, 3), (8, 2, 1), (7, 2, 0)]
     for norb, na, nb in sso_shapes:
         def hmat():
             h = [[0] * norb for _ in range(norb)]
@@ -387,10 +387,14 @@ def _model_matrix(model, norb, na, nb, h1, U, dd):
 
 def _model_matrix_sso(model, case):
     """exact sector matrix of the spin-dependent Hamiltonian of an 'fqe_sso' case from the extracted model (2 H is integer)"""
+    import json
     import numpy
     import fqeio
     from props import c01
     norb, na, nb = case['norb'], case['na'], case['nb']
+    ck = json.dumps([norb, na, nb, case['h1a'], case['h1b'], case['vv']])
+    if ck in _SSO_CACHE:                      # the two code paths of one case share the exact matrix
+        return _SSO_CACHE[ck]
     ents = []
     for blk, off in ((case['h1a'], 0), (case['h1b'], norb)):
         ents += [[[i + off, j + off], 2 * blk[i][j], 0] for i in range(norb) for j in range(norb) if blk[i][j]]
@@ -408,7 +412,11 @@ def _model_matrix_sso(model, case):
         e = c01.expected(model, {'norb': norb, 'mode': 'ns', 'n': na + nb, 'sz': na - nb, 'vec': [[a, b, 1, 0]], 'ham': ham})
         for key, (re, im) in e['out'].items():
             H[index[key], k] = re / 2.0
+    _SSO_CACHE[ck] = H
     return H
+
+
+_SSO_CACHE = {}
 
 
 def compare(case, got, exp, mode):
@@ -525,7 +533,7 @@ def sample(case):
 
 
 THEOREM_FILES = ['P_C18']
-RULE = ('real symmetric and complex Hermitian integer matrices of dimension 4-10 (complex ones certified through the real '
+RULE = ('spin-dependent SSO Hamiltonians through davidsonliu_fqe on both code paths (7 orbitals low filling, 4-5 orbitals half filling), judged by the model sector matrix; real symmetric and complex Hermitian integer matrices of dimension 4-10 (complex ones certified through the real '
         'embedding of twice the size) incl. exactly degenerate and near-degenerate (1e-3) low spectra, 1-3 roots, default '
         'guesses; block matrices with a supplied decoupled exact-eigenvector guess between the Ritz start value and the second '
         'eigenvalue (roots change index while iterating); FQE restricted Hamiltonians through davidson_diagonalization. Every returned root gets an exact integer '
